@@ -140,6 +140,7 @@ def resolveNamespace (k : SourceKind) (attrNs sourceNs targetNs : Option Str) : 
   match k with
   | .abstractElement => none
   | .complex => some (detectLazyNamespace attrNs sourceNs targetNs)
-  | _ => some attrNs
+  -- absent type, enumeration, simple type: `detect_lazy_namespace(None, target, attr)`
+  | _ => some (detectLazyNamespace attrNs none targetNs)
 
 end Xs.Wsdl
